@@ -21,7 +21,7 @@ RULE = ('queries = generated multi-integration SELECTs / set operations / CTEs x
 ASSUMPTIONS = ['step semantics as encoded in vf/ref/plan_interp.py from the docstrings of planner/steps.py',
                'sqlite3 3.40 reference engine; every column reference is qualified by a table alias',
                'cases whose plan the interpreter cannot resolve unambiguously are counted as not-interpretable, never judged']
-BUDGET = {'quick': (8, 100), 'thorough': (16, 700)}
+BUDGET = {'quick': (8, 300), 'thorough': (16, 2100)}
 INTS = ('int1', 'int2', 'int3')
 
 
